@@ -14,7 +14,7 @@ Import ListNotations.
 Open Scope N_scope.
 
 (* ---------- configuration, calls, receivers, state ---------- *)
-Record cfg := mkcfg { dialT : N; writeT : N; readT : N; qcap : N }.
+Record cfg := mkcfg { dialT : N; writeT : N; readT : N; qcap : N; qmax : Z (* ObjQueueMax *) }.
 
 (* rtimer.After(T): the wheel ticks every T/accuracy; the returned slot closes between T - T/accuracy and T *)
 Definition lo (T : N) : N := T - T / c_rtimer_accuracy.
@@ -35,7 +35,8 @@ Inductive pc :=
 
 Record call := mkcall {
   k_start : N; k_dl : N; k_pc : pc; k_t0 : N (* begin of the current wait *);
-  k_lockt : N (* ghost: when connLock was acquired *); k_e : bool (* ghost: time passed while waiting to enqueue *);
+  k_lockt : N (* ghost: when connLock was acquired *); k_d : bool (* ghost: this call dialled *);
+  k_e : bool (* ghost: time passed while waiting to enqueue *);
   k_out : option outcome; k_ret : N }.
 
 (* a reply receiver goroutine: go protocol.Recv(pkg) *)
@@ -56,7 +57,7 @@ Definition call_of (id : N) : option nat := if id =? 0 then None else Some (pred
 
 Inductive label :=
 | Tick | Start (d : N)
-| LPre (i : nat) | LReg (i : nat) | LLock (i : nat)
+| LPre (i : nat) | LReg (i : nat) | LQueueFull (i : nat) | LLock (i : nat)
 | LDialOk (i : nat) | LDialFail (i : nat) | LDialTimeout (i : nat)
 | LEnq (i : nat) | LEnqTimeout (i : nat) | LCtxFire (i : nat) | LClean (i : nat) | LPost (i : nat)
 | LSendTake | LConnDown
@@ -73,17 +74,19 @@ Definition memb (i : nat) (l : list nat) : bool := existsb (Nat.eqb i) l.
 Definition remove_nat (i : nat) (l : list nat) : list nat := filter (fun j => negb (Nat.eqb i j)) l.
 
 Definition set_pc (k : call) (p : pc) : call :=
-  mkcall (k_start k) (k_dl k) p (k_t0 k) (k_lockt k) (k_e k) (k_out k) (k_ret k).
+  mkcall (k_start k) (k_dl k) p (k_t0 k) (k_lockt k) (k_d k) (k_e k) (k_out k) (k_ret k).
 Definition set_wait (k : call) (p : pc) (t : N) : call :=
-  mkcall (k_start k) (k_dl k) p t (k_lockt k) (k_e k) (k_out k) (k_ret k).
-Definition set_lock (k : call) (p : pc) (t : N) : call :=
-  mkcall (k_start k) (k_dl k) p t t (k_e k) (k_out k) (k_ret k).
+  mkcall (k_start k) (k_dl k) p t (k_lockt k) (k_d k) (k_e k) (k_out k) (k_ret k).
+Definition set_lock (k : call) (p : pc) (t : N) (d : bool) : call :=
+  mkcall (k_start k) (k_dl k) p t t d (k_e k) (k_out k) (k_ret k).
 Definition set_out (k : call) (o : outcome) (e : bool) : call :=
-  mkcall (k_start k) (k_dl k) Done (k_t0 k) (k_lockt k) e (Some o) (k_ret k).
+  mkcall (k_start k) (k_dl k) Done (k_t0 k) (k_lockt k) (k_d k) e (Some o) (k_ret k).
+Definition set_full (k : call) : call :=
+  mkcall (k_start k) (k_dl k) Cleaned (k_t0 k) (k_lockt k) (k_d k) (k_e k) (Some Error) (k_ret k).
 Definition set_enq (k : call) (e : bool) : call :=
-  mkcall (k_start k) (k_dl k) Waiting (k_t0 k) (k_lockt k) e (k_out k) (k_ret k).
+  mkcall (k_start k) (k_dl k) Waiting (k_t0 k) (k_lockt k) (k_d k) e (k_out k) (k_ret k).
 Definition set_ret (k : call) (t : N) : call :=
-  mkcall (k_start k) (k_dl k) Returned (k_t0 k) (k_lockt k) (k_e k) (k_out k) t.
+  mkcall (k_start k) (k_dl k) Returned (k_t0 k) (k_lockt k) (k_d k) (k_e k) (k_out k) t.
 
 Definition with_calls (s : state) (cs : list call) : state :=
   mkst (now s) cs (rcvs s) (queueLen s) (invokeNum s) (resp s) (conn_open s) (lock s) (sendq s) (wire s) (sent s).
@@ -117,7 +120,7 @@ Definition step (c : cfg) (s : state) (l : label) : option state :=
   match l with
   | Tick => if urgent c s then None
             else Some (mkst (now s + 1) (calls s) (rcvs s) (queueLen s) (invokeNum s) (resp s) (conn_open s) (lock s) (sendq s) (wire s) (sent s))
-  | Start d => Some (with_calls s (calls s ++ [mkcall (now s) (now s + d) Init 0 0 false None 0]))
+  | Start d => Some (with_calls s (calls s ++ [mkcall (now s) (now s + d) Init (now s) (now s) false false None 0]))
   | LPre i =>
       match nth_error (calls s) i with
       | Some k => match k_pc k with
@@ -127,7 +130,16 @@ Definition step (c : cfg) (s : state) (l : label) : option state :=
   | LReg i =>
       match nth_error (calls s) i with
       | Some k => match k_pc k with
-                  | Pre => Some (mkst (now s) (upd (calls s) i (set_pc k Reg)) (rcvs s) (queueLen s + 1)%Z (invokeNum s) (i :: resp s) (conn_open s) (lock s) (sendq s) (wire s) (sent s))
+                  | Pre => if (qmax c <? queueLen s)%Z then None
+                           else Some (mkst (now s) (upd (calls s) i (set_pc k Reg)) (rcvs s) (queueLen s + 1)%Z (invokeNum s) (i :: resp s) (conn_open s) (lock s) (sendq s) (wire s) (sent s))
+                  | _ => None end
+      | None => None end
+  | LQueueFull i =>   (* "invoke queue is full": returns before anything is registered *)
+      match nth_error (calls s) i with
+      | Some k => match k_pc k with
+                  | Pre => if (qmax c <? queueLen s)%Z
+                           then Some (with_calls s (upd (calls s) i (set_full k)))
+                           else None
                   | _ => None end
       | None => None end
   | LLock i =>
@@ -135,8 +147,8 @@ Definition step (c : cfg) (s : state) (l : label) : option state :=
       | Some k, None =>
           match k_pc k with
           | Reg => if conn_open s
-                   then Some (with_calls s (upd (calls s) i (set_lock k Enq (now s))))
-                   else Some (mkst (now s) (upd (calls s) i (set_lock k Dialing (now s))) (rcvs s) (queueLen s) (invokeNum s) (resp s) (conn_open s) (Some i) (sendq s) (wire s) (sent s))
+                   then Some (with_calls s (upd (calls s) i (set_lock k Enq (now s) false)))
+                   else Some (mkst (now s) (upd (calls s) i (set_lock k Dialing (now s) true)) (rcvs s) (queueLen s) (invokeNum s) (resp s) (conn_open s) (Some i) (sendq s) (wire s) (sent s))
           | _ => None end
       | _, _ => None end
   | LDialOk i =>
@@ -305,7 +317,7 @@ Definition want_start (sc : scen) (s : state) : bool :=
 
 Definition call_label (c : cfg) (s : state) (i : nat) (k : call) : label :=
   match k_pc k with
-  | Init => LPre i | Pre => LReg i | Reg => LLock i | Dialing => LDialTimeout i
+  | Init => LPre i | Pre => if (qmax c <? queueLen s)%Z then LQueueFull i else LReg i | Reg => LLock i | Dialing => LDialTimeout i
   | Enq => if N.of_nat (length (sendq s)) <? qcap c then LEnq i else LEnqTimeout i
   | Waiting => LCtxFire i | Done => LClean i | Cleaned => LPost i | Returned => Tick
   end.
